@@ -103,6 +103,7 @@ def run(ctx):
                 keys = gen_keys(rng, kk, n)
                 parts = split(rng, keys)
                 seed = rng.random()
+                ghost_run = n <= 1100 and rng.random() < 0.12
                 res = {}
                 model_ops = None
                 for impl in ("C", "Py"):
@@ -116,6 +117,15 @@ def run(ctx):
                             built.append((list(extra), list(extra)))
                         ops = [b[0] for b in built]
                         model_ops = [b[1] for b in built]
+                        if ghost_run:
+                            # the operands live in a database and have been evicted from the cache (ghosts)
+                            from harness.minijar import Storage, Jar
+                            jar = Jar(Storage())
+                            for o in ops:
+                                if hasattr(o, "_p_oid"):
+                                    jar.add(o)
+                            jar.commit()
+                            jar.minimize()
                         try:
                             r = f.func("multiunion", impl)(ops)
                             ok_type = type(r) is f.cls("Set", impl)
